@@ -185,7 +185,13 @@ def check(prop, tier, seed):
         # the real crate (or the replay crate) does not build: nothing can be replayed; proofs are still valid
         trusted_note = "replay crate did not build: " + replay_err[-300:]
 
-    if undecided:
+    # a failed obligation of this property is a violation whatever else is undecided: report it first
+    has_fails = any(isinstance(r, dict) and any(prop in f["props"] for f in r.get("failures", [])) for _, _, r in results)
+    if undecided and has_fails:
+        for x in undecided:
+            print("UNDECIDED property=%s %s" % (prop, x[:600]))
+        results = [(u, sd, r) for u, sd, r in results if isinstance(r, dict)]
+    elif undecided:
         for x in undecided:
             print("UNDECIDED property=%s %s" % (prop, x[:600]))
         # The verifier could not decide (the code left the extractor's / the annotations' reach).  A bounded witness
@@ -269,9 +275,11 @@ def check(prop, tier, seed):
             violations.append((fake, path, ws))
             print("BOUNDED-SEARCH (code not under contract): witness on the real code: input=%r observed=%r expected=%r" % (ws[0].get("input"), ws[0].get("observed"), ws[0].get("expected")))
             print("VIOLATION property=%s replay=%s" % (prop, path))
-    write_evidence(prop, tier, seed, P, results, violations, known, time.time() - t0, trusted_note, [], bounded_note)
+    write_evidence(prop, tier, seed, P, results, violations, known, time.time() - t0, trusted_note, undecided if has_fails else [], bounded_note)
     if violations:
         return 1
+    if undecided and has_fails:
+        return 2   # every failing obligation was a recorded finding, but part of the unit is undecided
     tot = sum(r["verified"] for _, _, r in results)
     print("OK property=%s units=%s verified_items=%d wall=%.1fs" % (prop, ",".join(sorted(by_unit)), tot, time.time() - t0))
     return 0
